@@ -2690,9 +2690,12 @@ fn make_glyph_order(glyphs: &[RawGlyph], custom_order: Option<Vec<SmolStr>>) -> 
 }
 
 // glyphs2 uses hex, glyphs3 uses base10
-fn parse_codepoint_str(s: &str, radix: u32) -> BTreeSet<u32> {
+fn parse_codepoint_str(s: &str, radix: u32) -> Result<BTreeSet<u32>, Error> {
     s.split(',')
-        .map(|cp| u32::from_str_radix(cp, radix).unwrap())
+        .map(|cp| {
+            u32::from_str_radix(cp, radix)
+                .map_err(|e| Error::BadValue(format!("invalid codepoint '{cp}': {e}")))
+        })
         .collect()
 }
 
@@ -3182,6 +3185,7 @@ impl RawGlyph {
         let codepoints = self
             .unicode
             .map(|s| parse_codepoint_str(&s, format_version.codepoint_radix()))
+            .transpose()?
             .unwrap_or_default();
 
         if (category.is_none() || sub_category.is_none() || production_name.is_none())
@@ -4511,6 +4515,16 @@ mod tests {
                 .map(|a| a.tag.as_str())
                 .collect::<Vec<&str>>(),
             vec!["wght", "wdth", "XXXX"]
+        );
+    }
+
+    #[test]
+    fn bad_codepoint_is_an_error_not_a_panic() {
+        assert!(parse_codepoint_str("0.0000000001", 10).is_err());
+        assert!(parse_codepoint_str("41,zz", 16).is_err());
+        assert_eq!(
+            BTreeSet::from([0x41, 0x42]),
+            parse_codepoint_str("41,42", 16).unwrap()
         );
     }
 
